@@ -91,7 +91,8 @@ func (g *Generator) translate(dir, name string, isTarget bool) (res *FuncResult)
 		}
 	}
 	t := &fn{g: g, pkg: pkg, decl: fd, tgt: tgt, lname: lname, names: map[types.Object]string{}, used: map[string]bool{},
-		intExprs: map[string]bool{}, externAt: map[ast.Expr]string{}}
+		intExprs: map[string]bool{}, externAt: map[ast.Expr]string{}, inoutSet: map[types.Object]bool{},
+		funcPar: map[types.Object]*ty{}, errCls: map[string]bool{}}
 	for k := range leanReserved {
 		t.used[k] = true
 	}
@@ -150,6 +151,12 @@ func (t *fn) run() *FuncResult {
 		for i := 0; i < tps.Len(); i++ {
 			tp := tps.At(i)
 			n := tp.Obj().Name()
+			out.Sig.TParams = append(out.Sig.TParams, n)
+			if uniformTypeSet(t, tp) != nil {
+				// every member of the type set translates to the same Lean type: no type variable
+				out.Sig.Erased = append(out.Sig.Erased, n)
+				continue
+			}
 			t.tparams = append(t.tparams, n)
 			t.used[n] = true
 			inst := "[BEq " + n + "]"
@@ -169,11 +176,11 @@ func (t *fn) run() *FuncResult {
 			if inst != "" {
 				t.tbinder += " " + inst
 			}
+			t.tbinder += " [Inhabited " + n + "]" // `var zero T`
 		}
 	}
 	addTP(sig.RecvTypeParams())
 	addTP(sig.TypeParams())
-	out.Sig.TParams = t.tparams
 	// extern expressions
 	if t.tgt != nil && len(t.tgt.Extern) > 0 {
 		t.findExterns(out)
@@ -206,6 +213,7 @@ func (t *fn) run() *FuncResult {
 		t.used[ln] = true
 		params = append(params, fmt.Sprintf("(%s : %s)", ln, rty.lean()))
 		out.Sig.HasRecv, out.Sig.RecvPtr, out.Sig.RecvType = true, ptr, rty.lean()
+		t.recvPtr = ptr
 		out.Sig.Params = append(out.Sig.Params, Param{Name: ln, Code: structCode(rty), Lean: rty.lean()})
 	}
 	// parameters
@@ -213,6 +221,19 @@ func (t *fn) run() *FuncResult {
 		p := sig.Params().At(i)
 		pt, err := t.goType(p.Type())
 		gp := Param{Name: p.Name(), GoType: types.TypeString(p.Type(), func(pk *types.Package) string { return pk.Name() })}
+		if fsig, isFn := p.Type().Underlying().(*types.Signature); isFn {
+			ft, ferr := t.funcParamTy(fsig)
+			if ferr != nil {
+				t.reject(fd, "parameter %s: %v", p.Name(), ferr)
+			}
+			pt, err = ft, nil
+			t.funcPar[p] = ft
+			if ft.fnMut {
+				t.notes = append(t.notes, fmt.Sprintf("callback parameter `%s : %s`: it may write the elements of the slice it is handed (the call `%s(s, …)` is `let s ← %s s …`) and may panic; ASSUMED to have no other effect, not to keep the slice, and to leave its length alone", p.Name(), ft.lean(), p.Name(), p.Name()))
+			} else {
+				t.notes = append(t.notes, fmt.Sprintf("callback parameter `%s : %s`: ASSUMED pure and total (no panic, no effect, the result depends on the arguments only)", p.Name(), ft.lean()))
+			}
+		}
 		if err != nil {
 			// droppable when every use lies inside an extern expression
 			if !t.onlyInExterns(p) {
@@ -281,20 +302,56 @@ func (t *fn) run() *FuncResult {
 			}
 		}
 	}
-	if t.recvObj != nil && !out.Sig.RecvPtr {
-		// value receiver: writes stay local, nothing is returned
+	if t.recvObj != nil && out.Sig.RecvPtr {
+		// calls of other methods on the same receiver that write it
+		ast.Inspect(fd.Body, func(m ast.Node) bool {
+			ce, ok := m.(*ast.CallExpr)
+			if !ok {
+				return true
+			}
+			if dep := t.recvMethodDep(ce); dep != nil && dep.OK && dep.Sig.RecvOut {
+				t.recvOut = true
+			}
+			return true
+		})
 	}
 	recvOut := t.recvOut
-	retv := func(v string) []string {
-		if recvOut {
-			if len(t.resTy) == 0 {
-				return []string{".ok " + t.names[t.recvObj]}
+	// written slice parameters (in-out): decided up front as well
+	t.findInOut(sig)
+	nInOut := len(t.inout)
+	for _, o := range t.inout {
+		for i := 0; i < sig.Params().Len(); i++ {
+			if sig.Params().At(i) == o {
+				out.Sig.InOut = append(out.Sig.InOut, i)
 			}
-			return []string{".ok (" + v + ", " + t.names[t.recvObj] + ")"}
 		}
-		return []string{".ok " + parenIf(v)}
+		var others []string
+		for i := 0; i < sig.Params().Len(); i++ {
+			q := sig.Params().At(i)
+			if q == o {
+				continue
+			}
+			if _, known := t.names[q]; !known {
+				continue
+			}
+			if qt, err := t.goType(q.Type()); err == nil && (qt.k == kList || qt.k == kStruct) {
+				others = append(others, q.Name())
+			}
+		}
+		if t.recvObj != nil {
+			others = append(others, "the receiver "+t.names[t.recvObj])
+		}
+		pre := "no other parameter can refer to a backing array, so there is nothing to assume"
+		if len(others) > 0 {
+			pre = "PRECONDITION (established at every call site inside translated code, ASSUMED for outside callers): the backing array of `" + o.Name() +
+				"` overlaps that of no other argument (" + strings.Join(others, ", ") + ")"
+		}
+		t.notes = append(t.notes, fmt.Sprintf("in-out slice parameter `%s`: written by the function, so its final value is returned after the results (state passing; its length never changes); %s", o.Name(), pre))
 	}
-	c := &ctx{ret: retv}
+	retv := func(v string) []string {
+		return []string{".ok " + parenIf(t.buildFull(v))}
+	}
+	c := &ctx{ret: retv, retFull: func(f string) []string { return []string{".ok " + parenIf(f)} }}
 	var pre []string
 	t.pre = &pre
 	body := t.block(fd.Body.List, c, func() []string {
@@ -303,7 +360,7 @@ func (t *fn) run() *FuncResult {
 		}
 		return retv("()")
 	})
-	if t.recvOut != recvOut {
+	if t.recvOut != recvOut || len(t.inout) != nInOut {
 		t.reject(fd, "internal: receiver mutation detected late")
 	}
 	for name, used := range t.externUsed() {
@@ -311,17 +368,12 @@ func (t *fn) run() *FuncResult {
 			t.reject(fd, "extern expression `%s` does not occur in the function", name)
 		}
 	}
-	resTys := append([]*ty{}, t.resTy...)
-	resStr := tupleTy(resTys)
-	if recvOut {
-		if len(resTys) == 0 {
-			resStr = t.recvTy.lean()
-		} else {
-			resStr = resStr + " × " + t.recvTy.lean()
-		}
-	}
+	resStr := t.fullResTy()
 	for _, rt := range t.resTy {
 		out.Sig.Results = append(out.Sig.Results, codeOrStruct(rt))
+	}
+	for _, o := range t.inout {
+		out.Sig.Results = append(out.Sig.Results, codeOrStruct(t.varTy(o)))
 	}
 	if recvOut {
 		out.Sig.Results = append(out.Sig.Results, structCode(t.recvTy))
@@ -343,7 +395,79 @@ func (t *fn) run() *FuncResult {
 		out.IntExprs = append(out.IntExprs, e)
 	}
 	sort.Strings(out.IntExprs)
+	for c := range t.errCls {
+		out.Sig.ErrClasses = append(out.Sig.ErrClasses, c)
+	}
+	sort.Strings(out.Sig.ErrClasses)
+	out.Notes = t.notes
 	return out
+}
+
+func (s *Sig) erased(tp string) bool {
+	for _, e := range s.Erased {
+		if e == tp {
+			return true
+		}
+	}
+	return false
+}
+
+// typeSetTypes lists the types of the union terms of a constraint (nil when it has none).
+func typeSetTypes(it *types.Interface, depth int) []types.Type {
+	var out []types.Type
+	if depth > 5 {
+		return nil
+	}
+	for i := 0; i < it.NumEmbeddeds(); i++ {
+		switch e := it.EmbeddedType(i).(type) {
+		case *types.Union:
+			for j := 0; j < e.Len(); j++ {
+				out = append(out, e.Term(j).Type())
+			}
+		default:
+			if sub, ok := e.Underlying().(*types.Interface); ok {
+				out = append(out, typeSetTypes(sub, depth+1)...)
+			} else {
+				out = append(out, e)
+			}
+		}
+	}
+	return out
+}
+
+// uniformTypeSet: when every member of the type set of tp translates to one and the same
+// Lean type (e.g. `~string | ~[]byte` = List (BitVec 8)), that type; nil otherwise.
+func uniformTypeSet(t *fn, tp *types.TypeParam) *ty {
+	it, ok := tp.Constraint().Underlying().(*types.Interface)
+	if !ok || it.NumMethods() > 0 {
+		return nil
+	}
+	ts := typeSetTypes(it, 0)
+	if len(ts) == 0 {
+		return nil
+	}
+	var first *ty
+	allStr := true
+	for _, x := range ts {
+		if _, isTP := x.(*types.TypeParam); isTP {
+			return nil
+		}
+		r, err := t.goType(x)
+		if err != nil {
+			return nil
+		}
+		if first == nil {
+			first = r
+		} else if !sameTy(first, r) {
+			return nil
+		}
+		if !r.str {
+			allStr = false
+		}
+	}
+	res := *first
+	res.str = allStr && first.k == kList
+	return &res
 }
 
 func codeOrStruct(t *ty) string {
@@ -510,7 +634,11 @@ func (g *Generator) render(targets []*FuncResult) string {
 		if si == nil {
 			continue
 		}
-		fmt.Fprintf(&b, "structure %s where\n", si.name)
+		hdr := si.name
+		for _, tp := range si.tparams {
+			hdr += " (" + tp + " : Type)"
+		}
+		fmt.Fprintf(&b, "structure %s where\n", hdr)
 		for i, f := range si.fields {
 			fmt.Fprintf(&b, "  %s : %s\n", f, si.ftypes[i].lean())
 		}
@@ -527,6 +655,9 @@ func (g *Generator) render(targets []*FuncResult) string {
 		fmt.Fprintf(&b, "/- %s\n%s\n-/\n", r.Key, strings.ReplaceAll(strings.ReplaceAll(r.Source, "/-", "/ -"), "-/", "- /"))
 		if len(r.IntExprs) > 0 {
 			fmt.Fprintf(&b, "-- `int` expressions translated as unbounded Int: %s\n", strings.Join(r.IntExprs, " ; "))
+		}
+		for _, n := range r.Notes {
+			fmt.Fprintf(&b, "-- %s\n", n)
 		}
 		b.WriteString(r.Lean)
 		b.WriteString("\n")
@@ -559,6 +690,16 @@ func parserFor(code string, inst map[string]string) string {
 		return "GoSem.parseInt"
 	case code == "bytes" || code == "str":
 		return "GoSem.parseBytes"
+	case strings.HasPrefix(code, "menu:cmp:"):
+		if resolveCode(code[9:], inst) == "int" {
+			return "(fun s => (GoSem.parseInt s).map GoSem.cmpMenuInt)"
+		}
+		return ""
+	case strings.HasPrefix(code, "menu:swap:"):
+		if lt := leanTypeOfCode(resolveCode(code[10:], inst)); lt != "" {
+			return "(fun s => (GoSem.parseInt s).map (GoSem.swapMenu (α := " + lt + ")))"
+		}
+		return ""
 	case strings.HasPrefix(code, "u"):
 		return "GoSem.parseBV " + code[1:]
 	case strings.HasPrefix(code, "i"):
@@ -603,6 +744,14 @@ func printerFor(code string, inst map[string]string) string {
 		}
 	}
 	return ""
+}
+
+// resolveCode instantiates a `tparam:T` kind.
+func resolveCode(code string, inst map[string]string) string {
+	if strings.HasPrefix(code, "tparam:") {
+		return goKindCode(inst[code[7:]])
+	}
+	return code
 }
 
 // goKindCode maps a Go basic type name (target option "inst") to a protocol kind.
@@ -689,6 +838,9 @@ func runTransCase(r *FuncResult) string {
 				binds = append(binds, fmt.Sprintf("(%s %s)", pr, a))
 				fv = append(fv, f[0]+" := "+v)
 			}
+			for tp, it := range inst {
+				sn = replaceIdent(sn, tp, "("+leanTypeOfCode(goKindCode(it))+")")
+			}
 			call = append(call, "({ "+strings.Join(fv, ", ")+" } : "+sn+")")
 			continue
 		}
@@ -729,13 +881,24 @@ func runTransCase(r *FuncResult) string {
 	}
 	show := "fun (_ : Unit) => \"ok\""
 	if len(xs) > 0 {
-		show = "fun " + tuple(xs) + " => \" \".intercalate [" + strings.Join(shows, ", ") + "]"
+		pat := tuple(xs)
+		nouts := len(r.Sig.InOut)
+		if r.Sig.RecvOut {
+			nouts++
+		}
+		if nres := len(xs) - nouts; nouts > 0 && nres > 1 {
+			pat = "(" + tuple(xs[:nres]) + ", " + strings.Join(xs[nres:], ", ") + ")"
+		}
+		show = "fun " + pat + " => \" \".intercalate [" + strings.Join(shows, ", ") + "]"
 	}
 	// explicit instantiation of type parameters
 	fname := r.LeanName
 	if len(r.Sig.TParams) > 0 {
 		fname = "@" + fname
 		for _, tp := range r.Sig.TParams {
+			if r.Sig.erased(tp) {
+				continue
+			}
 			it, ok := inst[tp]
 			lt := leanTypeOfCode(goKindCode(it))
 			if !ok || lt == "" {
@@ -748,6 +911,9 @@ func runTransCase(r *FuncResult) string {
 		fname = strings.Trim(fname, "()")
 		fname = r.LeanName
 		for _, tp := range r.Sig.TParams {
+			if r.Sig.erased(tp) {
+				continue
+			}
 			fname += " (" + tp + " := " + leanTypeOfCode(goKindCode(inst[tp])) + ")"
 		}
 	}
